@@ -811,6 +811,32 @@ def try_branches_on(fn, poll_call):
     return out
 
 
+def closure_use_sites(db, f, g):
+    """call sites in `f` that are handed the closure `g` (created in f): where g's body runs if it is run in place"""
+    out = []
+    for c in f.calls():
+        for a in c.args:
+            if any(r["k"] == "agg" and r["stmt"]["rv"].get("kind") == "closure" and r["stmt"]["rv"].get("def") == g.id for r in f.origins(a)):
+                out.append(c)
+                break
+    return out
+
+
+def calls_incl_closures(db, f, pred):
+    """calls satisfying `pred` made by `f` itself, or by a closure created in f -- the latter reported at the site(s) in f where
+    the closure is handed to its consumer (`opt.is_some_and(|w| w.is_available())`): [(site in f, Call)]"""
+    out = [(c.site, c) for c in f.calls() if pred(c)]
+    for g in db.children(f.id):
+        if g.kind != "closure":
+            continue
+        inner = [c for c in g.calls() if pred(c)]
+        if inner:
+            for u in closure_use_sites(db, f, g):
+                for c in inner:
+                    out.append((u.site, c))
+    return out
+
+
 def result_decisions(fn, pred):
     """decisions on a Result value whose origin roots satisfy `pred(root)`: `x?` (Try::branch + its switch) and explicit
     `match x { Ok(..) => .., Err(..) => .. }` / `if let Err(e) = x`.  list of dict(site, cont_edge, break_edge, call)"""
@@ -1026,18 +1052,22 @@ def _flag_defs(fn, local):
 
 
 def edge_guards(fn, edge, target, result_local=None, _depth=0):
-    """`target` executes only if `edge` was taken.  Plain edge dominance, or dominance through a bool that is decided on
-    that edge and tested later: the lowering of `matches!`, of `let flag = a && b; if flag {..}`, of `if !(a || b)`.
-    A later two-way switch on a local f stands for the edge when one of its edges dominates the target and every definition
+    """`target` executes only if `edge` (one block edge, or any one of a list of edges) was taken.  Plain edge dominance, or
+    dominance through a local that records the decision and is tested later: the lowering of `matches!`, of
+    `let flag = a && b; if flag {..}`, of `if !(a || b)`, and its enum-valued cousin
+    `let next = if .. { Step::A } else { Step::B }; match next { Step::A => .. }`.
+    A later switch on a local f stands for the edge(s) when one of its edges dominates the target and every definition
     of f that can produce that switch value lies behind `edge` (or *is* the value of the test itself, `result_local`)."""
-    if fn.edge_dominates_plain(edge, target):
+    edges = [tuple(e) for e in edge] if (edge and isinstance(edge[0], (list, tuple))) else [tuple(edge)]
+    behind = (lambda s_: fn.edge_dominates_plain(edges[0], s_)) if len(edges) == 1 else (lambda s_: s_ not in fn.reach(fn.entry(), no_edges=edges))
+    if behind(target):
         return True
     if _depth > 3:
         return False
     for site, t, local, neg, ds in fn.flag_switches():
         for val in ("true", "false"):
             e2 = fn.edge_of(site, other_bool(val) if neg else val)
-            if not e2 or e2 == edge:
+            if not e2 or e2 in edges:
                 continue
             if not (fn.edge_dominates_plain(e2, target) or (_depth < 2 and edge_guards(fn, e2, target, None, _depth + 3))):
                 continue
@@ -1046,7 +1076,7 @@ def edge_guards(fn, edge, target, result_local=None, _depth=0):
             for dsite, kind, st in ds:
                 if kind == "call":
                     # f = some_call(..): behind the edge, or the test's own call (f is true only if the test was)
-                    if fn.edge_dominates_plain(edge, dsite) or (val == "true" and result_local is not None and local == result_local):
+                    if behind(dsite) or (val == "true" and result_local is not None and local == result_local):
                         some = True
                         continue
                     ok = False
@@ -1055,13 +1085,13 @@ def edge_guards(fn, edge, target, result_local=None, _depth=0):
                 if rv["k"] == "use" and rv["op"].get("k") == "const" and rv["op"].get("val") in ("true", "false"):
                     if rv["op"]["val"] != val:
                         continue                # this definition cannot make the switch take e2
-                    if fn.edge_dominates_plain(edge, dsite):
+                    if behind(dsite):
                         some = True
                         continue
                     ok = False
                     break
                 # a computed value
-                if fn.edge_dominates_plain(edge, dsite):
+                if behind(dsite):
                     some = True
                     continue
                 src = op_place(rv["op"]) if rv["k"] == "use" else None
@@ -1071,6 +1101,19 @@ def edge_guards(fn, edge, target, result_local=None, _depth=0):
                 ok = False
                 break
             if ok and some:
+                return True
+    for site, info, local, by_variant in fn.enum_flag_switches():
+        by_target = {}
+        for name, tgt in info["edges"].items():
+            by_target.setdefault(tgt, []).append(name)
+        for tgt, names in by_target.items():
+            e2 = (site.bb, tgt)
+            if e2 in edges:
+                continue
+            if not (fn.edge_dominates_plain(e2, target) or (_depth < 2 and edge_guards(fn, e2, target, None, _depth + 3))):
+                continue
+            dsites = [d for n_ in names for d in by_variant.get(n_, [])]
+            if dsites and all(behind(d) for d in dsites):
                 return True
     return False
 
